@@ -30,7 +30,10 @@ def scn_sync(rnd, sid):
             "pre": [], "script": [], "script2": [], "heapctx": rnd.random() < 0.5, "kind": "sync",
             # some messages are fatal ones (handed to the installed handler the way Qt does it, without Qt's abort()):
             # the logger then flushes its sinks inside the same critical section
-            "fatalEvery": rnd.choice([0, 2, 3, 5])}
+            "fatalEvery": rnd.choice([0, 2, 3, 5]),
+            # every other scenario: the producers' first calls - the first messages this logger object ever sees - are made
+            # at the same instant (a spin barrier right before the call), not one thread start after the other
+            "startTogether": n <= 16 and sid % 2 == 0}
 
 
 def scn_async(rnd, sid):
